@@ -202,61 +202,8 @@ theorem C14_unfilled_slot_rejected (long : Bool) (flags : Bytes) (k i : Nat) (c 
 /-- reading a header never reaches an out-of-range index into the flag bytes (no panic), for any input at all -/
 theorem C14_no_panic_refs (long : Bool) (flags : Bytes) (k i : Nat) (c : Cache) (bs : Bytes)
     (h : i + k ≤ 2 * flags.length - 1) :
-    (parseRefs long flags k i c bs).2 ≠ .error .panic := by
-  induction k generalizing i c bs with
-  | zero => simp [parseRefs]
-  | succ k ih =>
-    have hin : i / 2 < flags.length := by omega
-    unfold parseRefs
-    split
-    · rename_i e he
-      cases bs with
-      | nil => simp [rdU, rdN] at he; subst he; simp
-      | cons b t => simp [rdU, rdN] at he
-    · rename_i idx r _
-      have hnib : ∃ v, nibbleAt flags i = some v := by
-        unfold nibbleAt; rw [List.getElem?_eq_getElem hin]; exact ⟨_, rfl⟩
-      obtain ⟨v, hv⟩ := hnib
-      simp only [hv]
-      split
-      · split
-        · rename_i e he; intro hp
-          simp only [Except.error.injEq] at hp; subst hp
-          unfold rdU at he; split at he <;> simp at he
-        · split
-          · rename_i e he; intro hp
-            simp only [Except.error.injEq] at hp; subst hp
-            unfold takeE at he; split at he <;> simp at he
-          · split
-            · simp
-            · exact ih (i + 1) _ _ (by omega)
-      · split
-        · exact ih (i + 1) _ _ (by omega)
-        · simp
+    (parseRefs long flags k i c bs).2 ≠ .error .panic := parseRefs_np long flags k i c bs h
 
-theorem C14_no_panic (c : Cache) (bs : Bytes) : (parseHeader c bs).2 ≠ .error .panic := by
-  unfold parseHeader
-  split
-  · rename_i e he; intro hp
-    simp only [Except.error.injEq] at hp; subst hp
-    unfold rdU at he; split at he <;> simp at he
-  · rename_i n r _
-    split
-    · simp
-    · split
-      · rename_i e he; intro hp
-        simp only [Except.error.injEq] at hp; subst hp
-        unfold takeE at he; split at he <;> simp at he
-      · rename_i flags r1 hf
-        have hlen : flags.length = n / 2 + 1 := by
-          unfold takeE takeN at hf
-          by_cases hle : n / 2 + 1 ≤ r.length
-          · simp only [hle, ↓reduceIte, Except.ok.injEq, Prod.mk.injEq] at hf
-            rw [← hf.1]; simp; omega
-          · simp [hle] at hf
-        have hin : n / 2 < flags.length := by omega
-        rw [List.getElem?_eq_getElem hin]
-        simp only
-        exact C14_no_panic_refs _ flags n 0 c r1 (by omega)
+theorem C14_no_panic (c : Cache) (bs : Bytes) : (parseHeader c bs).2 ≠ .error .panic := parseHeader_np c bs
 
 end Edp.Props.C14
